@@ -40,6 +40,10 @@ Inductive act :=
 | ARebind (l : lockid) (* the program variable through which mutex l is named is re-assigned
                           (p = p.next): only allowed while l is not held, so that a lock name
                           always denotes the same object for as long as it is held *)
+| AOrder (l : lockid)  (* lock-order obligation: the acquisition that follows must come BEFORE any
+                          acquisition of l -- a violation if l is already held.  Used for the one place
+                          where two instances of a mutex class are held together in a fixed order
+                          (ClientPromise.Fulfill: the promise hook, then its resolution target) *)
 | AMark (line : nat).  (* source position, no effect *)
 
 Inductive stmt :=
@@ -79,6 +83,7 @@ Inductive violation :=
 | VSenderNoMutex                     (* sendCond touched without Conn.mu *)
 | VTransportNoSender                 (* outbound transport operation without the sender lock *)
 | VRebindHeld (l : lockid)           (* variable naming a held mutex re-assigned *)
+| VLockOrder (l : lockid)            (* a mutex that must be acquired before l is acquired while l is held *)
 | VTasksUnderflow                    (* Done / hand-over of an obligation the function does not own *)
 | VPrecondition (f : nat)            (* contract-only function called in a state its contract does not allow *)
 | VIllFormed.
@@ -124,6 +129,7 @@ Definition step (a : act) (σ : state) : state + violation :=
       | S n => inl (mkS (held σ) (sender σ) n)
       end
   | ARebind l => if mem l (held σ) then inr (VRebindHeld l) else inl σ
+  | AOrder l => if mem l (held σ) then inr (VLockOrder l) else inl σ
   | AMark _ => inl σ
   end.
 
